@@ -127,7 +127,7 @@ def plan_C06(ck):
         sz = "4" if q else "5"
         c = cfg % sz if "%s" in cfg else cfg + sz
         ck.model(name + "-" + sz + "nodes", "Orders.tla", "MCOrders_%s.cfg" % c, note=note, workers=16, timeout=3000)
-    ck.traces(cf.state_cases(ck.seed + 6, 150 if q else 4000, 5 if q else 8, "C06"), ["C06"], tag="c06",
+    ck.traces(cf.state_cases(ck.seed + 6, 150 if q else 2500, 5 if q else 7, "C06"), ["C06"], tag="c06",
               nontrivial=cf.nontrivial_world)
     if q and ck.violations:
         return
